@@ -52,6 +52,7 @@ class Rec:
         self.subs: dict[str, int] = {}
         self.workers = 0
         self.worker_by_task: dict[str, int] = {}
+        self.sub_of_task: dict[int, int] = {}
 
     def ref(self, name: str | None = None) -> Any:
         """(actor kind, reference) of the current task: root name | ensemble index | worker id."""
@@ -272,8 +273,9 @@ def instrument(rec: Rec, poison: dict) -> Iterator[None]:
     # ---- the orchestrator's ensemble tasks ---------------------------------------------------------------
     def o_create_guarded_task(coro: Any, name: str, **kw: Any) -> Any:
         t = aiotasks.create_guarded_task(coro=coro, name=name, **kw)
-        idx = len(rec.subs)
-        rec.subs[name] = idx
+        idx = len(rec.sub_of_task)
+        rec.subs[name] = idx            # a task spawned anew for the same key has the same name: the latest one counts
+        rec.sub_of_task[id(t)] = idx
         kind = classify_actor(name)
         rec.add("subSpawn", idx, kind, name)
 
@@ -285,7 +287,7 @@ def instrument(rec: Rec, poison: dict) -> Iterator[None]:
 
     async def o_stop(tasks: Any, *, title: str, **kw: Any) -> Any:
         redundant = bool(kw.get("quiet"))
-        rec.add("orchStopSubsBegin", len(tasks), redundant)
+        rec.add("orchStopSubsBegin", len(tasks), redundant, sorted(i for i in (rec.sub_of_task.get(id(t)) for t in tasks) if i is not None))
         try:
             out = await aiotasks.stop(tasks, title=title, **kw)
         except asyncio.CancelledError:
